@@ -2,10 +2,10 @@
 PROPS["C06"] = dict(
     props_file="Properties/C06.v",
     harnesses=[
-        dict(cmd="blobfn", mod="root", model="Model.BlobFn", quick=1500, thorough=60000, shard=750,
+        dict(cmd="blobfn", mod="root", model="Model.BlobFn", quick=800, thorough=50000, shard=200,
              require=["fn.add", "fn.add.good", "fn.add.merge", "fn.super", "fn.writer", "fn.writer.pieces", "fn.parse.ok",
                       "fn.parse.err", "fn.walk.ok", "fn.walk.unaligned"]),
-        dict(cmd="blob", mod="root", model="Model.BlobRead", quick=240, thorough=12000, shard=60,
+        dict(cmd="blob", mod="root", model="Model.BlobRead", quick=160, thorough=10000, shard=40,
              require=["op.read", "op.cache", "op.evict", "op.check", "op.refresh", "op.expire", "cache.mem", "cache.dir",
                       "result.read.ok", "result.read.err", "read.across_eof", "read.from_cache_only", "mode.single",
                       "served.multi", "served.mpalways", "served.perm", "served.first", "served.squash", "served.whole",
